@@ -298,6 +298,11 @@ vharness!(c18_t_arglist_scalar_vs_boundvar, 8, { arg_lists(1, 4) });
 
 // children of mixed leaf kinds under the list-carrying constructors
 vharness!(c18_q_same_adt_var_vs_ground, 8, { same_ctor(0, (3, 0), (0, 4)) });
+vharness!(c18_q_same_dyn_var_vs_ground, 8, { same_ctor(18, (3, 0), (0, 0)) });
+vharness!(c18_t_same_dyn_ground_vs_boundvar, 8, { same_ctor(18, (0, 0), (4, 0)) });
+vharness!(c18_t_same_function_var_vs_ground, 8, { same_ctor(20, (3, 0), (0, 4)) });
+vharness!(c18_t_same_slice_alias_vs_ground, 8, { same_ctor(5, (8, 0), (1, 0)) });
+vharness!(c18_t_same_ref_var_vs_placeholder, 8, { same_ctor(7, (3, 0), (2, 0)) });
 vharness!(c18_t_same_tuple_var_vs_ground, 8, { same_ctor(3, (3, 1), (1, 4)) });
 vharness!(c18_t_same_adt_ph_and_scalar, 8, { same_ctor(0, (2, 1), (2, 1)) });
 vharness!(c18_t_same_fndef_alias_vs_ground, 8, { same_ctor(9, (8, 0), (0, 5)) });
